@@ -54,6 +54,16 @@ func (c *C07) Init(tier string, worker, nworkers int, seed uint64) error {
 	if dd.depth == dd.batch {
 		dd.depth++
 	}
+	// the ends of the supported range belong to "every valid parameter set" too: the deepest tree each
+	// mode can be built for (index arithmetic at 2^31 / 2^32 is where 32-bit shifts wrap)
+	if nworkers >= 4 {
+		switch worker {
+		case nworkers - 1:
+			di = dims{rollup.Insertion, 32, 1}
+		case nworkers - 2:
+			dd = dims{rollup.Deletion, 31, 2}
+		}
+	}
 	return c.g.init(worker, []dims{di, dd})
 }
 
@@ -145,6 +155,11 @@ func (c *C07) Run(x *engine.Ctx) *engine.Violation {
 				return engine.Violatef("C07/valid-batch-not-proved", "%s %s: %v", s.Key(), rollup.DescribeIns(w), err)
 			}
 			proof, hash = p.Proof, w.InputHash
+			if t.Chance(1, 2) {
+				if v := c.resubmitWithChangedPublicValue(x, t, s, w, nil, &lg); v != nil {
+					return v
+				}
+			}
 			c2 := append([]*big.Int{}, w.Comms...)
 			c2[0] = new(big.Int).Add(oracle.Mod(c2[0]), big.NewInt(1))
 			perturbed = rollup.HonestInsertion(world.Model, w.Start.Uint64(), c2).InputHash
@@ -156,6 +171,11 @@ func (c *C07) Run(x *engine.Ctx) *engine.Violation {
 				return engine.Violatef("C07/valid-batch-not-proved", "%s %s: %v", s.Key(), rollup.DescribeDel(w), err)
 			}
 			proof, hash = p.Proof, w.InputHash
+			if t.Chance(1, 2) {
+				if v := c.resubmitWithChangedPublicValue(x, t, s, nil, w, &lg); v != nil {
+					return v
+				}
+			}
 			w2 := *w
 			w2.Post = new(big.Int).Add(oracle.Mod(w.Post), big.NewInt(1))
 			w2.Post.Mod(w2.Post, oracle.R)
@@ -292,6 +312,64 @@ func isPanic(err error) bool {
 }
 
 // invalidParams hands the prover something that is not a valid batch for this system.
+// resubmitWithChangedPublicValue: history. The batch just proved on this system is handed to the prover
+// again with the SAME input hash and the same private inputs (merkle proofs) but one of the values the hash
+// stands for changed (pre-root, post-root, start index / a deletion index, a commitment). That set does not
+// describe a valid batch - its stated hash is not the hash of its public values - so the prover owes an
+// error and no proof, whatever it remembers about the earlier call.
+func (c *C07) resubmitWithChangedPublicValue(x *engine.Ctx, t *tape.Tape, s *gtier.System, iw *oracle.InsertionWitness, dw *oracle.DeletionWitness, lg *[]string) *engine.Violation {
+	var proof *prover.Proof
+	var err error
+	field := ""
+	bump := func(v *big.Int) { v.Add(v, big.NewInt(int64(1+t.Draw(3)))) }
+	if iw != nil {
+		p := gtier.InsertionParams(iw)
+		switch t.Draw(4) {
+		case 0:
+			bump(&p.PreRoot)
+			field = "pre-root"
+		case 1:
+			bump(&p.PostRoot)
+			field = "post-root"
+		case 2:
+			p.StartIndex ^= 1 << uint(t.Draw(3))
+			field = "start-index"
+		default:
+			bump(&p.IdComms[t.Pick(len(p.IdComms))])
+			field = "commitment"
+		}
+		proof, err = safeProveIns(s, p)
+	} else {
+		p := gtier.DeletionParams(dw)
+		switch t.Draw(3) {
+		case 0:
+			bump(&p.PreRoot)
+			field = "pre-root"
+		case 1:
+			bump(&p.PostRoot)
+			field = "post-root"
+		default:
+			p.DeletionIndices[t.Pick(len(p.DeletionIndices))] ^= 1 << uint(t.Draw(3))
+			field = "deletion-index"
+		}
+		proof, err = safeProveDel(s, p)
+	}
+	x.S.Eval(1)
+	x.S.Count("fault:params/history/resubmitted-with-changed-" + field)
+	x.S.Seen(fmt.Sprintf("%s/resubmission/%s", s.Key(), field))
+	x.Log.Addf("sequencer", "resubmission", "%s field=%s err=%v proof=%v", s.Key(), field, err != nil, proof != nil)
+	if len(*lg) < 30 {
+		*lg = append(*lg, fmt.Sprintf("resubmit the proved batch with %s changed, input hash kept -> err=%v", field, err != nil))
+	}
+	if isPanic(err) {
+		return engine.Violatef("C07/prover-panics-on-invalid-parameters/history", "%s resubmission with %s changed: %v", s.Key(), field, err)
+	}
+	if err == nil || proof != nil {
+		return engine.Violatef("C07/invalid-parameters-proved/history", "%s: the batch proved a moment ago was resubmitted with its %s changed and its input hash and merkle proofs kept; the stated hash is no longer the hash of the public values, yet the prover returned error=%v proof-present=%v", s.Key(), field, err, proof != nil)
+	}
+	return nil
+}
+
 func (c *C07) invalidParams(x *engine.Ctx, t *tape.Tape, s *gtier.System, lg *[]string) *engine.Violation {
 	kind := ""
 	var proof *prover.Proof
